@@ -18,8 +18,15 @@ def sh(cmd, cwd=None, timeout=3000):
 
 
 def main():
-    args = [a for a in sys.argv[1:] if not a.startswith("--prefix=")]
+    args = [a for a in sys.argv[1:] if not a.startswith("--")]
     prefix = next((a.split("=", 1)[1] for a in sys.argv[1:] if a.startswith("--prefix=")), "seed")
+    # --worktree: run the checks against the scratch worktree (VERIF_REPO, same content as /repo + patch) instead of
+    #             patching /repo, so that several changes can be tried at the same time
+    # --verif=<dir>: use the checks of another checkout of /verif (e.g. the commit before a strengthening: first-run verdict)
+    # --no-store: do not write /verif/seeded/<id>
+    use_wt = "--worktree" in sys.argv
+    verif = next((a.split("=", 1)[1] for a in sys.argv[1:] if a.startswith("--verif=")), "/verif")
+    no_store = "--no-store" in sys.argv
     pid = args[0]
     checks = args[1:] or [pid]
     wt = Path(f"/tmp/{prefix}_{pid}")
@@ -59,15 +66,19 @@ def main():
     if rc != 0:
         print("PATCH DOES NOT APPLY to /repo:", o[:300])
         return 1
-    sh(f"git -C /repo apply {patch}")
+    if not use_wt:
+        sh(f"git -C /repo apply {patch}")
     try:
         for c in checks:
-            rc, o = sh(f"bin/check {c} quick", cwd="/verif")
+            rc, o = sh((f"VERIF_REPO={wt} " if use_wt else "") + f"bin/check {c} quick", cwd=verif)
             lines = [l for l in o.splitlines() if l.startswith(("VIOLATION", "OK ", "INFRA", "KNOWN", "  what"))]
             rec["ran"][f"check_{c}_quick"] = {"exit": rc, "lines": lines[:6]}
             print(f"check {c}: exit {rc}", lines[:4])
     finally:
-        sh("git -C /repo checkout -- .")
+        if not use_wt:
+            sh("git -C /repo checkout -- .")
+    if no_store:
+        return 0
     # 3. store
     n = 0
     tag = "" if prefix == "seed" else "-r" + prefix[4:]
